@@ -49,6 +49,9 @@ def run(ctx, res):
     rule_dimensions(prog, res)
     rule_cursor_pair(prog, res, la)
     rule_cursor_copy(prog, res, la)
+    from ..channelarith import rule_linear
+    rule_linear(prog, res)
+    res.require_min("R-LIN", 15)
     res.require_min("R-CURSOR-PAIR", 3)
     res.require_min("L-PAIR", 10)
     res.require_min("L-GUARDED", 40)
